@@ -476,6 +476,62 @@ def r9_mark_monotone(c, facts, rule='C09.R9'):
         c.ok(R, {'writers': sorted(writers)})
 
 
+INLINE_ATOMIC = ('Num', 'Str', 'Bool', 'Int', 'Rel', 'Uri')      # frozen: the schemas the emitter writes without descending into another schema
+
+
+def r15_inline_atomic(c, facts, rule='C09.R15'):
+    """the emitter follows a reference (looks its target up by name and emits the target in place) only when the target
+    is atomic: everything else is written as `$ref`. Following a reference whose target can contain a reference follows
+    a cycle for ever - the emitter has no marker of its own, the finiteness of the document rests on this rule."""
+    R = c.rule(rule, 'INLINE-ATOMIC: the emitter looks a reference up by name only to inline an atomic target (%s); a target that can contain schemas is always a $ref' % ', '.join(INLINE_ATOMIC))
+    adt = facts.adt('oal_compiler::spec::SchemaExpr')
+    if not adt:
+        c.bad(R, 'anchor-missing:SchemaExpr', 'type oal_compiler::spec::SchemaExpr not found')
+        return
+    names = [v['name'] for v in adt['variants']]
+    n = 0
+    for q, l in sorted(facts.by_qname.items()):
+        if not q.startswith('oal_openapi::'):
+            continue
+        for fn in l:
+            if not fn.mir:
+                continue
+            idx = None
+            for b, t in fn.calls():
+                cal = P.strip(callee_of(t).get('def', ''))
+                if not re.search(r'(IndexMap|HashMap|BTreeMap)(::<[^>]*>)?::(get|get_full|get_key_value|get_index_of|index)$', cal) and not cal.endswith('Index::index'):
+                    continue
+                if not t['args'] or 'l' not in t['args'][0] or 'spec::Reference' not in t['args'][0].get('ty', ''):
+                    continue
+                n += 1
+                inst = {'fn': q, 'lookup': cal.split('::')[-1]}
+                sws = []
+                for b2, blk in fn.blocks():
+                    sw = blk['term']
+                    if sw['t'] != 'switch' or 'l' not in sw['discr'] or not (fn.dominates(b, b2) and b != b2):
+                        continue
+                    for st in blk['stmts']:
+                        if st['s'] == 'assign' and st['rv']['r'] == 'discr' and st['place']['l'] == sw['discr']['l'] and st['rv']['place'].get('ty', '').endswith('spec::SchemaExpr'):
+                            sws.append((b2, sw))
+                if not sws:
+                    c.bad(R, 'reference-followed-unguarded:' + q.split('::', 1)[1], '%s looks a reference up by name and does not decide on the kind of its target: a target that contains a reference to itself (every recursion point does) is emitted in place, level after level' % q, **inst)
+                    continue
+                b2, sw = sws[0]
+                tg = {names[int(v)]: x for v, x in sw['targets'] if v.isdigit() and int(v) < len(names)}
+                groups = {}
+                for v, x in tg.items():
+                    groups.setdefault(x, set()).add(v)
+                rest = set(names) - set(tg)
+                groups.setdefault(sw['otherwise'], set()).update(rest)
+                mixed = [sorted(g) for g in groups.values() if g & set(INLINE_ATOMIC) and g - set(INLINE_ATOMIC)]
+                inst['groups'] = sorted(sorted(g) for g in groups.values())
+                if mixed:
+                    c.bad(R, 'non-atomic-target-inlined:%s:%s' % (q.split('::', 1)[1], ','.join(sorted(set(mixed[0]) - set(INLINE_ATOMIC)))), '%s treats %s like the atomic targets: a reference to such a schema is emitted in place although it can contain a reference to itself' % (q, sorted(set(mixed[0]) - set(INLINE_ATOMIC))), **inst)
+                else:
+                    c.ok(R, inst)
+    c.floor(R, 'look-ups of a reference by name in the emitter', n, 1)
+
+
 def r13_export_all(c, facts, rule='C09.R13'):
     """every value registered while evaluating (ctx.refs) becomes a component of the specification: the recursion points
     and the uses of a reference are `$ref`s to its *name*, whatever the value is - an alias of another reference included"""
@@ -513,8 +569,10 @@ def r13_export_all(c, facts, rule='C09.R13'):
 
 def run(c, facts):
     c.run(r13_export_all, facts)
+    c.run(r15_inline_atomic, facts)
     import c14 as _c14
     import inferrules as _I
+    c.run(lambda c: _I.unify_symmetric(c, facts, c.rule('C09.R14', 'UNIFY-EXACT (shared C07.R19): two different kinds never unify, so a recursion point (schema, URI or relation) reaches only positions of its own kind - where its cast emits the reference')))
     R11 = c.rule('C09.R11', 'COMPONENT-FROM-PROGRAM: the components a recursion point refers to are the program\'s: components.schemas of the document is what all_components() produced, not an entry of a base description with the same name (shared with C14.R3)')
     c.shared(R11, _c14.r3_from_program, 'C14.R3', facts)
     R12 = c.rule('C09.R12', 'VAR-NAMESPACE: the tag the cycle check cuts at is inferred without collisions between the type variables of different modules (shared with C07.R6)')
